@@ -62,7 +62,7 @@ func (f *Flaky) Open() error {
 	if err != nil {
 		return err
 	}
-	p := &Peer{L: l, Addr: f.Addr, Name: f.name, HandshakeTimeout: time.Second}
+	p := &Peer{L: l, Addr: f.Addr, Name: f.name, HandshakeTimeout: 5 * time.Second}
 	p.rawConn = forwardProxyConn(p, f.resolve, "via-"+f.name)
 	p.wg.Add(1)
 	go p.serve()
